@@ -45,15 +45,17 @@ ASSUMPTIONS = [
     "problems whose rationals the writer itself reports as not exactly representable are outside the statement's fragment and skipped",
 ]
 SHARD_TIMEOUT = {"quick": 900, "thorough": 5400}
+# ai_other: share of the non-"ai-friendly" cases that are also given to the AI-planning reader (the third-party parser behind it
+# rejects most of them - binary minus, negative literals, durative actions - after 0.1-0.2 CPU-seconds spent building its grammar)
 BOUNDS = {
-    "quick": dict(n=420, depth=2, max_states=10, max_inst=12, plans=2),
-    "thorough": dict(n=6000, depth=3, max_states=40, max_inst=24, plans=4),
+    "quick": dict(n=120, shards=5, depth=2, max_states=8, max_inst=10, plans=2, ai_other=0.25),
+    "thorough": dict(n=6000, shards=16, depth=3, max_states=40, max_inst=24, plans=4, ai_other=1.0),
 }
 
 
 def plan(tier, seed):
     b = BOUNDS[tier]
-    return simple_plan(PROPERTY, tier, seed, b["n"], b["n"], shards_quick=16)
+    return simple_plan(PROPERTY, tier, seed, b["n"], b["n"], shards_quick=b["shards"], shards_thorough=BOUNDS["thorough"]["shards"])
 
 
 def run_shard(spec, res):
@@ -90,11 +92,28 @@ def _renamed_items(problem, writer):
     return n
 
 
+def _negative_bool_tautologies(problem):
+    """Names of Boolean fluents with an unconditional assignment whose value is a non-constant expression that the library's
+    simplifier reduces to false (only used to name the mechanism of a mismatch, never for a verdict)."""
+    out = []
+    for a in problem.actions:
+        effs = a.effects if hasattr(a, "preconditions") else [e for el in a.effects.values() for e in el]
+        for e in effs:
+            v = e.value
+            if v.type.is_bool_type() and not v.is_constant():
+                try:
+                    if v.simplify().is_false() and e.condition.simplify().is_true():
+                        out.append(e.fluent.fluent().name)
+                except Exception:  # noqa
+                    pass
+    return out
+
+
 def run_case(key, tier, res):
     b = BOUNDS[tier]
     res.count("tier:" + tier)
     rng = rng_for(key)
-    rec, info = iofrag.gen_pddl_case(rng)
+    rec, info = iofrag.gen_pddl_case(rng, int(key.rsplit(":", 1)[1]))
     explicit_env = rng.random() < 0.12
     e = _env.fresh_env()
     try:
@@ -125,13 +144,20 @@ def check_problem(pb, rec, info, wbase, b, res, rng, explicit_env=False):
         where = io_rt.origin(ex, "pddl_writer.py")
         ms = [m for m in pb.quality_metrics if m.is_minimize_action_costs()]
         if isinstance(ex, AttributeError) and ms and any(ms[0].get_action_cost(a) is None for a in pb.actions):
-            where = "action-without-cost"
+            # MinimizeActionCosts.get_action_cost documents that a cost MUST be set for every action (mapping or default):
+            # such a metric is not a valid model, the writer owes nothing (the generator no longer produces it)
+            res.count("skipped_invalid_cost_metric")
+            return
         viol("writer-raises:" + io_rt.exc_class(ex) + ":" + where, f"PDDLWriter.get_domain/get_problem raised {ex!r}")
         return
     if wout.inexact():
         res.count("skipped_inexact_decimal")
         return
     dom, prob = wout.value
+    kw = io_rt.pddl_c38_keyword_names(pb, writer, dom, prob)
+    if kw:
+        res.count("rejected-by-C38-defect:keyword-as-name")
+        return
     renamed = _renamed_items(pb, writer)
     deep = max([iofrag.num_depth(x) for x in iofrag.all_exprs(rec)] or [0]) if "example" not in wbase else 0
     nested = iofrag.nested_noncommutative(rec) if "example" not in wbase else set()
@@ -141,11 +167,24 @@ def check_problem(pb, rec, info, wbase, b, res, rng, explicit_env=False):
     tags = io_rt.pddl_text_tags(dom, prob)
     for t in tags:
         res.count("text:" + t)
+    pddl3 = io_rt.pddl3_word_names(pb, writer)
+    if pddl3:
+        res.count("text:pddl3-word-as-name")
+    neg_taut = _negative_bool_tautologies(pb) if info.get("rewrite") else []
+    if neg_taut:
+        res.count("text:bool-assignment-simplifying-to-false")
+    import re as _re
+
+    constant_metric = bool(_re.search(r"\(:metric\s+(minimize|maximize)\s+[-0-9.]+\s*\)", prob))
+    ai_rng = rng_for(wbase.get("case_key", wbase.get("example")), "ai-reader")
     for which in ("up", "ai"):
-        # constructs the third-party parser behind the AI reader is known to mis-handle key the mechanism string
-        sfx = ("[" + io_rt.primary_tag(tags) + "]") if which == "ai" and tags else ""
-        arith = [t for t in tags if t in ("nested-div", "nested-minus")]
-        sfx_raise = ("[" + ",".join(arith) + "]") if which == "ai" and arith else ""
+        if which == "ai" and info.get("variant") not in ("ai-friendly", "example") and ai_rng.random() >= b.get("ai_other", 1.0):
+            res.count("ai_reader_not_tried")
+            continue
+        # One mechanism string per root cause. Constructs that the third-party `pddl` package behind the AI reader mis-parses
+        # (its AST already lacks the repeated operand / nests differently / has Or() for the empty precondition) key the
+        # string, however the difference shows (exception in the converter, applicability, successor, goal, ...).
+        third_party = ("ai:third-party-misparse[" + io_rt.primary_tag(tags) + "]") if which == "ai" and tags else None
         renv = _env.fresh_env()
         res.mon()
         reader, rout = io_rt.read_pddl(which, dom, prob, renv, explicit_env)
@@ -164,7 +203,22 @@ def check_problem(pb, rec, info, wbase, b, res, rng, explicit_env=False):
             if isinstance(ex, io_rt.READER_REJECTIONS):
                 res.count(f"rejected_by_reader:{which}:{type(ex).__name__}")
                 continue
-            mech = f"reader-raises:{which}:{io_rt.exc_class(ex)}" + (":explicit-environment" if explicit_env and "environment" in str(ex) else sfx_raise)
+            if explicit_env and "environment" in str(ex):
+                # one root cause per reader (objects created in the global environment), whichever assertion trips first
+                mech = f"reader-raises:{which}:explicit-environment"
+            elif which == "up" and constant_metric and "Expected" in str(ex):
+                # `(:metric maximize 0)` (the metric expression simplifies to a constant): legal PDDL the UP reader's grammar
+                # (metric ::= name | nested expression) cannot parse
+                mech = "reader-raises:up:constant-metric"
+            elif which == "up" and pddl3:
+                # the writer left a PDDL3 modal-operator word (always, sometime, ...) unmangled (it only reserves them for
+                # problems with trajectory constraints) and the UP reader parses `(sometime ...)` as the operator
+                mech = "reader-raises:up:pddl3-word-as-name"
+            elif third_party and any(t in tags for t in ("nested-div", "nested-minus")):
+                # (/ (/ a b) c) arrives flattened as (/ a b c): ExpressionManager.Div() takes 2 operands -> TypeError
+                mech = "ai:third-party-misparse[" + io_rt.primary_tag([t for t in tags if t in ("nested-div", "nested-minus")]) + "]"
+            else:
+                mech = f"reader-raises:{which}:{io_rt.exc_class(ex)}"
             viol(mech, f"PDDLReader({which}).parse_problem_string raised {ex!r} on the writer's output", domain=dom, problem=prob, reader=which, explicit_env=explicit_env)
             if explicit_env and "environment" in str(ex):
                 # continue with the default-environment mode so that the semantic comparison still happens
@@ -192,7 +246,17 @@ def check_problem(pb, rec, info, wbase, b, res, rng, explicit_env=False):
         except bisim.Mismatch as m:
             res.mon()
             res.case()
-            viol(f"{which}:{m.mechanism}{'' if m.mechanism.startswith('initial-state') else sfx}", f"[{which} reader] {m.summary}", domain=dom, problem=prob, reader=which, **m.details)
+            mech = f"{which}:{m.mechanism}"
+            diff = m.details.get("diff") or {}
+            if neg_taut and m.mechanism.startswith("successor-mismatch") and any(k.split("(")[0] in neg_taut and v[2] == "bool" for k, v in diff.items()):
+                # root cause in the writer (both readers read what was written): `f := <expression that simplifies to false>`
+                # is rewritten to the positive literal
+                mech = "writer:bool-assignment-simplifying-to-false-written-positive"
+            elif which == "ai" and any(v[2] == "num" and io_rt.inexact_binary(v[1]) for v in diff.values()):
+                mech = "ai:inexact-decimal-constant"
+            elif third_party and not m.mechanism.startswith("initial-state"):
+                mech = third_party
+            viol(mech, f"[{which} reader] {m.summary}", domain=dom, problem=prob, reader=which, text_tags=tags, **m.details)
             continue
         except Unsupported as u:
             res.count("skipped_unsupported_by_oracle")
@@ -397,21 +461,21 @@ def run_examples(tier, res, only=None):
 
 REQUIRED = {
     "quick": {
-        "class:renamed-items": 20,
-        "class:nested-minus": 5,
-        "class:nested-div": 5,
+        "class:renamed-items": 30,
+        "class:nested-minus": 3,
+        "class:nested-div": 2,
         "class:action-costs": 8,
-        "class:durative": 5,
-        "class:timed-initial": 2,
-        "feature:conditional": 20,
-        "feature:forall": 10,
-        "bisimulated_with_changes:up": 60,
-        "bisimulated_with_changes:ai": 10,
-        "plans_roundtripped": 40,
-        "tt_plans_roundtripped": 5,
+        "class:durative": 8,
+        "class:timed-initial": 3,
+        "feature:conditional": 100,
+        "feature:forall": 40,
+        "bisimulated_with_changes:up": 30,
+        "bisimulated_with_changes:ai": 7,
+        "plans_roundtripped": 100,
+        "tt_plans_roundtripped": 15,
     },
 }
-REQUIRED["thorough"] = {k: v * 5 for k, v in REQUIRED["quick"].items()}
+REQUIRED["thorough"] = {k: v * 20 for k, v in REQUIRED["quick"].items()}
 
 
 def thresholds(m):
@@ -421,6 +485,6 @@ def thresholds(m):
     for k, v in REQUIRED[tier].items():
         if c.get(k, 0) < v:
             out.append(f"fewer than {v} observations of class {k} ({c.get(k, 0)})")
-    if len(m["nontrivial"]) < (40 if tier == "quick" else 400):
+    if len(m["nontrivial"]) < (35 if tier == "quick" else 1000):
         out.append(f"too few distinct non-trivial (problem, reader) pairs ({len(m['nontrivial'])})")
     return out
